@@ -207,6 +207,8 @@ int main(int argc, char **argv)
 	lzma_ret ret = LZMA_OK;
 	lzma_action pending_action = LZMA_RUN;   // a flush in progress must be repeated with the same input
 	long reinit_after = arg(argc, argv, "reinit_after", -1);
+	long split_at = arg(argc, argv, "split_at", -1);
+	int holdcalls = 0;
 	int reinited = 0;
 	while (1) {
 		if (endafter >= 0 && calls >= endafter)
@@ -230,6 +232,12 @@ int main(int argc, char **argv)
 				limit = (size_t)act_off[next_act] < ip ? ip : (size_t)act_off[next_act];
 			size_t pend = strm.avail_in;
 			size_t k = slicing ? in_sizes[rnd() % (sizeof(in_sizes) / sizeof(in_sizes[0]))] : (size_t)-1;
+			// split_at=N: give exactly N bytes first, then a few calls without new input (so that the
+			// workers consume everything they have), then the rest
+			if (split_at >= 0 && holdcalls < 3 && (size_t)split_at < limit) {
+				if (ip + pend >= (size_t)split_at) { k = 0; ++holdcalls; }
+				else { limit = (size_t)split_at; if (!slicing) k = (size_t)-1; }
+			}
 			if (k > limit - ip - pend) k = limit - ip - pend;
 			strm.next_in = in + ip;
 			strm.avail_in = pend + k;
